@@ -23,12 +23,14 @@ def check(ctx):
 
 
 MUTANTS = [
+    ("nonexclusive-ancestor-prefix-only", M, "any(ancestor.nonexclusive for ancestor in call1.ancestors if ancestor in call2.ancestors)", "longest_common_prefix(call1.ancestors, call2.ancestors)[-1].nonexclusive"),
+    ("nonexclusive-ancestor-either-chain", M, "any(ancestor.nonexclusive for ancestor in call1.ancestors if ancestor in call2.ancestors)", "any(ancestor.nonexclusive for ancestor in call1.ancestors)"),
     ("eager-extra-blocker", core.SCHED, "transaction.run.eq(transaction.ready & transaction.runnable & noconflict)", "transaction.run.eq(transaction.ready & transaction.runnable & noconflict & ~ccl[0].run)"),
     ("eager-blocks-on-all-earlier", core.SCHED, "for j in range(k) if ccl[j] in gr[transaction]]", "for j in range(k)]"),
     ("schedule-before-conflicts", core.TBASE, "                priority=Priority.LEFT,\n                conflict=False,", "                priority=Priority.LEFT,\n                conflict=True,"),
     ("edge-without-conflict-flag", M, "            if conflict:\n                cgr[begin].add(end)\n                cgr[end].add(begin)", "            if conflict or priority != Priority.UNDEFINED:\n                cgr[begin].add(end)\n                cgr[end].add(begin)"),
-    ("no-exclusive-path-exemption", M, "common_ancestors[-1].nonexclusive or call_paths_exclusive(call1.call_path, call2.call_path)", "common_ancestors[-1].nonexclusive"),
-    ("no-nonexclusive-exemption", M, "common_ancestors[-1].nonexclusive or call_paths_exclusive(call1.call_path, call2.call_path)", "call_paths_exclusive(call1.call_path, call2.call_path)"),
+    ("no-exclusive-path-exemption", M, "                or call_paths_exclusive(call1.call_path, call2.call_path)\n                for call1", "                for call1"),
+    ("no-nonexclusive-exemption", M, "any(ancestor.nonexclusive for ancestor in call1.ancestors if ancestor in call2.ancestors)\n                or call_paths_exclusive(call1.call_path, call2.call_path)", "call_paths_exclusive(call1.call_path, call2.call_path)"),
     ("else-pushes", core.TMODULE, "            with self.avoiding_module.Else():\n                with self.path_builder.enter(EnterType.ADD):", "            with self.avoiding_module.Else():\n                with self.path_builder.enter(EnterType.PUSH):"),
     ("case-pushes", core.TMODULE, "            with self.avoiding_module.Case(*patterns):\n                with self.path_builder.enter(EnterType.ENTRY):", "            with self.avoiding_module.Case(*patterns):\n                with self.path_builder.enter(EnterType.PUSH):"),
     ("entry-does-not-advance", core.TMODULE, "self.ctrl_path[-1] = replace(self.ctrl_path[-1], alt=self.ctrl_path[-1].alt + 1)", "self.ctrl_path[-1] = replace(self.ctrl_path[-1], alt=self.ctrl_path[-1].alt)"),
